@@ -218,8 +218,26 @@ Fixpoint walk_prop (fuel : nat) (s : st) (swept : list Z) (ops : list hop) (os :
   | _, _ => VOk
   end end.
 
+Definition check_history (c0 : Z) (ops os : list sx) : verdict :=
+  match map_opt hop_of ops, map_opt obs_of os with
+  | Some ops, Some os =>
+      let fuel := S (length ops) in
+      vjoin (walk_prop fuel (init c0) [] ops os)
+     (vjoin (check_that (nodupz (map kcid (flat_map oc os))) (VPropFail 7))
+            (walk_model fuel (init c0) ops os))
+  | _, _ => VBad
+  end.
+
 Definition check (c : sx) : verdict :=
   match c with
+  | SList [SList [SInt 3; SInt _; SInt _]; SList [SInt (-4); SInt k; _]] =>
+      (* a sweep on its own goroutine racing a late response and a new call that is given the same
+         number, evaluated on the Go side: k = 0 ok, else the sentence *)
+      if k =? 0 then VOk else if k =? 5 then VPropFail 5 else if k =? 3 then VPropFail 3 else VPropFail 7
+  | SList [SList [SInt c0; SList ops; SInt _]; SList os] =>
+      (* request queue of another capacity (0: every call waits inside makeCall until its request is
+         taken); the model has no queue: same walks *)
+      match os with [SInt (-1)] => VOk | _ => check_history c0 ops os end
   | SList [SList [SInt 2; SInt _; SInt _; SInt _]; SList [SInt (-3); SInt k; _]] =>
       (* concurrent callers, evaluated on the Go side: k = 0 ok, 9 inconclusive, else the sentence *)
       if (k =? 0) || (k =? 9) then VOk
